@@ -1,6 +1,6 @@
 (* Entry points of the extracted model: one number per model function. *)
 From Coq Require Import ZArith List.
-From Tdda Require Import Base.Sexp RefTest.Argv RefTest.Tagged Serial.DateFmt RefTest.CheckStrings RefTest.Artefacts RefTest.Regen Constraints.Model Constraints.Detect Constraints.Serialise.
+From Tdda Require Import Base.Sexp RefTest.Argv RefTest.Tagged Serial.DateFmt RefTest.CheckStrings RefTest.Artefacts RefTest.Regen Constraints.Model Constraints.Detect Constraints.Serialise Constraints.Cli.
 Import ListNotations.
 Open Scope Z_scope.
 
@@ -18,5 +18,6 @@ Definition dispatch (n : Z) (s : sexp) : sexp :=
   | 10 => discover_entry s
   | 11 => detect_entry s
   | 12 => serialise_entry s
+  | 13 => cli_entry s
   | _ => L [A (-1)]
   end.
